@@ -41,3 +41,71 @@ def bump_bid(s):
         return {"ok": new.bid}
     except OverflowError:
         return {"err": "OverflowError"}
+
+
+# ---- C12 / C11: VCS command layer ----------------------------------------
+
+class _Capture:
+    """patches vcs.sp.check_output; records argv, returns canned output"""
+
+    def __init__(self, output=b""):
+        self.calls = []
+        self.output = output
+
+    def __enter__(self):
+        from bumpver import vcs
+        self._vcs = vcs
+        self._orig = vcs.sp.check_output
+
+        def fake(cmd_parts, **kw):
+            self.calls.append(list(cmd_parts))
+            return self.output
+        vcs.sp.check_output = fake
+        return self
+
+    def __exit__(self, *a):
+        self._vcs.sp.check_output = self._orig
+
+
+def vcs_argv(vcs_name, cmd, kw):
+    from bumpver import vcs
+    api = vcs.VCSAPI(vcs_name)
+    with _Capture() as cap:
+        try:
+            api(cmd, **kw)
+        except (ValueError, KeyError, IndexError) as ex:
+            return {"err": exc_name(ex)}
+    return {"ok": cap.calls[0]}
+
+
+def py_format(tmpl, kw):
+    try:
+        return {"ok": tmpl.format(**kw)}
+    except (ValueError, KeyError, IndexError, AttributeError) as ex:
+        return {"err": exc_name(ex)}
+
+
+def shlex_split(s):
+    import shlex
+    try:
+        return {"ok": shlex.split(s)}
+    except ValueError:
+        return {"err": "ValueError"}
+
+
+def sub_msg(m):
+    from bumpver import cli
+    return {"ok": cli._sub_msg_template(m)}
+
+
+def dirty_verdict(status_text, files, allow):
+    from bumpver import vcs
+    api = vcs.VCSAPI("git")
+    with _Capture(status_text.encode("utf-8")):
+        try:
+            vcs.assert_not_dirty(api, set(files), allow)
+            return {"ok": "proceed"}
+        except SystemExit:
+            return {"ok": "abort"}
+        except ValueError:
+            return {"err": "ValueError"}
